@@ -83,9 +83,13 @@ type execOpts struct {
 func (o execOpts) validate() error {
 	// The provided transaction input index must refer to a valid input.
 	if o.inputIdx < 0 || (o.tx != nil && o.inputIdx > o.tx.InputCount()-1) {
+		inputCount := 0
+		if o.tx != nil {
+			inputCount = o.tx.InputCount()
+		}
 		return errs.NewError(
 			errs.ErrInvalidIndex,
-			"transaction input index %d is negative or >= %d", o.inputIdx, len(o.tx.Inputs),
+			"transaction input index %d is negative or >= %d", o.inputIdx, inputCount,
 		)
 	}
 
@@ -120,6 +124,12 @@ func (o execOpts) validate() error {
 				"unlocking script does not match the unlocking script of the requested input",
 			)
 		}
+	}
+
+
+	// the checked input records the output it spends, so both must be there
+	if o.tx != nil && (o.previousTxOut == nil || o.tx.Inputs[o.inputIdx] == nil) {
+		return errs.NewError(errs.ErrInvalidParams, "tx supplied without its previous output or with a nil input")
 	}
 
 	return nil
